@@ -110,6 +110,9 @@ type interpreter struct {
 	methCache   map[methKey]*ssa.Function
 	fnInfos     map[*ssa.Function]*fnInfo
 	backing     map[*value][]value // &s[k] -> s[k:] for unsafe reinterpretation (recorded on IndexAddr when needed)
+	syncMaps    map[*value]*omap   // contents of sync.Map values, by address (sequential model)
+	waitGroups  map[*value]*int    // counters of sync.WaitGroup values, by address
+	mapIters    map[*value]*mapIterState
 }
 
 type deferred struct {
